@@ -144,10 +144,31 @@ func (s *stepper) Step(i int, st replay.Step) (replay.Obs, error) {
 		id := replay.Int(st.Args, "id")
 		rec := map[string]any{"request_id": strconv.Itoa(id), "status": "ok"}
 		ret := make(chan struct{})
-		go func() { s.em.Enqueue(rec); close(ret) }()
+		var panicked string
+		go func() {
+			// a panic inside enqueue (e.g. a send on the closed channel) is an observation
+			defer func() {
+				if r := recover(); r != nil {
+					panicked = fmt.Sprint(r)
+				}
+				close(ret)
+			}()
+			s.em.Enqueue(rec)
+		}()
 		select {
 		case <-ret:
 			obs["blocked"] = false
+			if panicked != "" {
+				obs["outcome"] = "panic"
+				obs["stamp"] = 0
+				obs["__note__"] = "enqueue panicked: " + panicked
+				// drop the hook event the call may have emitted before it panicked
+				select {
+				case <-s.hookCh:
+				default:
+				}
+				return obs, nil
+			}
 		case <-time.After(wait):
 			obs["blocked"] = true
 			obs["outcome"] = "blocked"
@@ -287,6 +308,7 @@ func recordOne(rng *rand.Rand, cap, producers, perProducer int) (trace, error) {
 	})
 	defer vgirpc.SetVerifHook(nil)
 	var wg sync.WaitGroup
+	var panics []string
 	seeds := make([]int64, producers)
 	for g := range seeds {
 		seeds[g] = rng.Int63()
@@ -298,6 +320,15 @@ func recordOne(rng *rand.Rand, cap, producers, perProducer int) (trace, error) {
 		go func(g int) {
 			defer wg.Done()
 			r := rand.New(rand.NewSource(seeds[g]))
+			defer func() {
+				// a panicking enqueue is recorded as an event the trace specification has no
+				// action for, so the execution is rejected (instead of the recorder dying)
+				if r := recover(); r != nil {
+					wmu.Lock()
+					panics = append(panics, fmt.Sprint(r))
+					wmu.Unlock()
+				}
+			}()
 			for k := 0; k < perProducer; k++ {
 				em.Enqueue(map[string]any{"request_id": fmt.Sprintf("g%d-%d", g, k), "status": "ok"})
 				switch r.Intn(4) {
@@ -344,6 +375,11 @@ func recordOne(rng *rand.Rand, cap, producers, perProducer int) (trace, error) {
 	tr.W = append([]wEv{}, wlog...)
 	wmu.Unlock()
 	tr.P = append([]pEv{}, plog...)
+	wmu.Lock()
+	for range panics {
+		tr.P = append(tr.P, pEv{Ev: "panic"})
+	}
+	wmu.Unlock()
 	return tr, nil
 }
 
